@@ -414,7 +414,9 @@ K_TYPE_CAP = [
 ]
 K_MALFORMED = [
     H(ROOT + 'c14::c14_k_filtered_params_malformed_entry_anywhere', ['<FilteredPublicKeyCredentialParameters as Deserialize>::deserialize (visit_seq loop)', 'derived PublicKeyCredentialParameters decoder (required member `type`)'],
-      kind='bounded', bound='lists of 0..=3 symbolic entries, each well-formed or lacking its required member `type`'),
+      kind='bounded', bound='lists of 0..=3 symbolic entries, each well-formed or lacking its required member `type`', timeout=2400, tier='thorough'),
+    H(ROOT + 'c14::c14_k_filtered_params_malformed_behind_two_known', ['<FilteredPublicKeyCredentialParameters as Deserialize>::deserialize (visit_seq loop)', 'derived PublicKeyCredentialParameters decoder (required member `type`)'],
+      kind='bounded', bound='one list shape: ES256, EdDSA, then an entry with any algorithm and no `type` member'),
 ]
 K_FILTERED_LEN = [
     H(ROOT + 'c14::c03_k_filtered_params_serialize_length', ['<FilteredPublicKeyCredentialParameters as Serialize>::serialize'], kind='proof',
